@@ -69,13 +69,52 @@ Definition unpaged (lo : lopts) : lopts := with_page lo 0 0.
 Lemma wrap64_small : forall z, -9223372036854775808 <= z < 9223372036854775808 -> wrap64 z = z.
 Proof. intros z H. unfold wrap64. rewrite Z.mod_small by lia. lia. Qed.
 
-Lemma page_block : forall (A : Type) (lo : lopts) (n : Z) (k : nat) (l : list A), 0 < n ->
-  n * Z.of_nat k < 9223372036854775808 ->
+Lemma wrap64_range : forall z, -9223372036854775808 <= wrap64 z < 9223372036854775808.
+Proof.
+  intros z. unfold wrap64.
+  pose proof (Z.mod_pos_bound (z + 9223372036854775808) 18446744073709551616). lia.
+Qed.
+
+(* the number of skipped elements for a positive page size n and a non-negative offset k (both Go ints):
+   n * k when it fits, and MaxInt - beyond the end of every list - when it does not *)
+Lemma skip_count_spec : forall n k,
+  0 < n < 9223372036854775808 -> 0 <= k < 9223372036854775808 ->
+  (n * k < 9223372036854775808 -> skip_count n k = n * k) /\
+  (9223372036854775808 <= n * k -> skip_count n k = max_int).
+Proof.
+  intros n k Hn Hk. unfold skip_count.
+  destruct (Z.gtb_spec n 0) as [_|]; [|lia]. cbn [andb].
+  destruct (Z.gtb_spec k 0) as [Hk0|Hk0]; cbn [andb].
+  - split; intros Hp.
+    + rewrite wrap64_small by nia. rewrite Z.quot_mul by lia. rewrite Z.eqb_refl. reflexivity.
+    + pose proof (wrap64_range (n * k)) as Hr.
+      destruct (Z.eqb_spec (Z.quot (wrap64 (n * k)) k) n) as [E|E]; [|reflexivity]. exfalso.
+      destruct (Z_lt_le_dec (wrap64 (n * k)) 0) as [Hneg|Hpos].
+      * assert (Z.quot (wrap64 (n * k)) k <= 0).
+        { replace (wrap64 (n * k)) with (- (- wrap64 (n * k))) by lia.
+          rewrite Z.quot_opp_l by lia.
+          pose proof (Z.quot_pos (- wrap64 (n * k)) k). lia. }
+        lia.
+      * rewrite Z.quot_div_nonneg in E by lia.
+        pose proof (Z.mul_div_le (wrap64 (n * k)) k). rewrite E in H. nia.
+  - assert (k = 0) by lia. subst k. split; intros Hp; [|lia].
+    rewrite Z.mul_0_r. reflexivity.
+Qed.
+
+Lemma page_block : forall (A : Type) (lo : lopts) (n : Z) (k : nat) (l : list A),
+  0 < n < 9223372036854775808 -> Z.of_nat k < 9223372036854775808 -> Z.of_nat (length l) < 9223372036854775808 ->
   page (with_page lo n (Z.of_nat k)) l = firstn (Z.to_nat n) (skipn (Z.to_nat n * k) l).
 Proof.
-  intros A lo n k l Hn Hb. rewrite page_is_spec_page. unfold spec_page, with_page. cbn [lo_max lo_offset].
-  destruct (Z.gtb_spec n 0); [|lia]. rewrite wrap64_small by lia.
-  replace (Z.to_nat (n * Z.of_nat k)) with (Z.to_nat n * k)%nat by lia. reflexivity.
+  intros A lo n k l Hn Hk Hl. rewrite page_is_spec_page. unfold spec_page, with_page. cbn [lo_max lo_offset].
+  destruct (Z.gtb_spec n 0); [|lia].
+  destruct (skip_count_spec n (Z.of_nat k)) as [Hsmall Hbig]; [lia|lia|].
+  destruct (Z_lt_le_dec (n * Z.of_nat k) 9223372036854775808) as [Hp|Hp].
+  - rewrite Hsmall by assumption.
+    replace (Z.to_nat (n * Z.of_nat k)) with (Z.to_nat n * k)%nat by lia. reflexivity.
+  - rewrite Hbig by assumption.
+    rewrite (skipn_all2 l) by (unfold max_int; lia).
+    rewrite (skipn_all2 l) by nia.
+    reflexivity.
 Qed.
 
 Lemma page_unpaged : forall (A : Type) (lo : lopts) (l : list A), page (unpaged lo) l = l.
